@@ -28,7 +28,7 @@ def transform_c06(both_ctors):
 
 
 def _distinct(rnd, n):
-    return rnd.sample(range(-15, 16), n)
+    return rnd.sample([v for v in range(-15, 16) if v != 0], n)
 
 
 def transform_c07(seed, both_ctors):
